@@ -1,7 +1,7 @@
 """C12 — results are deterministic: same inputs, same output, on every run."""
 from props.common_prog import judge_prog
 
-THEOREM_MODULES = ["Hcl.Theorems.C12"]
+THEOREM_MODULES = ["Hcl.Theorems.C12", "Hcl.Tie.PinsBuild"]
 THEOREMS = {"Hcl.Theorems.C12": ["C12_verdict_order_independent", "C12_rejected_on_every_run", "C12_diagnostics_order_independent",
                                  "Program_new_errors_order_independent", "resolveConstants_errors_order_independent", "assignmentsToActions_errors_order_independent", "C12_constants_order_independent",
                                  "C12_accepted", "C12_cycle", "C12_run", "C12_report",
@@ -9,7 +9,8 @@ THEOREMS = {"Hcl.Theorems.C12": ["C12_verdict_order_independent", "C12_rejected_
                                  "Program_new_verdict", "resolveConstants_order_independent", "assignmentsToActions_verdict",
                                  "assignmentsToActions_order_independent", "runLoop_stateEq", "execAction_congr",
                                  "check_congr", "fixMux_congr", "canonConsts_ext", "ordersOK_rev",
-                                 "C01_order_independent", "settled_unique", "C10_cycle_iff"]}
+                                 "C01_order_independent", "settled_unique", "C10_cycle_iff"],
+            "Hcl.Tie.PinsBuild": ["Tie.PinsBuild.pinProgramNew", "Tie.PinsBuild.pinResolveConstants", "Tie.PinsBuild.pinPreprocessFixed", "Tie.PinsBuild.pinAssignmentsToActions"]}
 
 RULE = ("S-PROG (all profiles) and the fault/loop-injection streams with every program built and run 8 times in-process, "
         "each build with fresh random hash seeds in every internal table: all runs must give identical results (every wire "
@@ -39,4 +40,8 @@ def streams(tier, seed):
     # must be the one deterministic text the model prints (fixed bank order, sorted letters for the rest)
     from props import C16
     out.append({"name": "dump", "stream": "dump", "count": 600 if q else 30000, "judge": C16.judge})
+    # the -d wire table (its rows come out of a hash map and are sorted; names differing only in case included) must be
+    # the one text the model prints
+    from props import C18
+    out.append({"name": "table", "stream": "table", "count": 400 if q else 20000, "judge": C18.judge_table})
     return out
